@@ -415,11 +415,17 @@ class Registry(object):
         cs = self.contracts.get(qual)
         if not cs:
             return None
-        # never apply a contract while verifying that very function's body (recursion aside)
         for c in cs:
+            if getattr(c, 'variant', None) is not None:
+                return None          # per-configuration contracts are not applied modularly: callers inline
             if c.apply_fn is not None or c.ensures is not None or c.raises or c.requires is not None:
                 return c
         return None
+
+    def loop_contract(self, qual):
+        """The contract whose loop invariants are used when `qual` is executed inline."""
+        cs = self.contracts.get(qual)
+        return cs[0] if cs else None
 
     def field_type(self, cls, name):
         for k in (cls.__mro__ if inspect.isclass(cls) else [cls]):
@@ -471,7 +477,91 @@ class Registry(object):
 REG = Registry()
 
 
-def contract(qual, **kw):
+def contract(qual, variants=None, **kw):
+    """Register a contract; `variants` = {name: params-dict} registers one
+    contract per parameter configuration (named fn[variant])."""
+    if variants:
+        out = []
+        base = kw.pop('name', None) or qual.split(':')[-1]
+        kw.pop('params', None)
+        for vn, params in variants.items():
+            c = Contract(qual, params=params, name='%s[%s]' % (base, vn), **kw)
+            c.variant = vn
+            REG.add(c)
+            out.append(c)
+        return out
     c = Contract(qual, **kw)
     REG.add(c)
     return c
+
+
+class Scenario(object):
+    """A lemma over several calls of real functions: `body(api)` drives the
+    executor (calling real code by qualified name) and states obligations."""
+
+    def __init__(self, name, prop, body, doc='', opts=None, mode='int'):
+        self.name = name
+        self.key = 'scenario:' + name
+        self.qual = 'scenario:' + name
+        self.prop = tuple(prop) if isinstance(prop, (list, tuple)) else (prop,)
+        self.body = body
+        self.doc = doc
+        self.opts = opts or {}
+
+    def verify(self, reg, budget_ms=10000):
+        ex = Executor(reg, dict(self.opts))
+        st = State()
+        fr = Frame(None, None)
+        api = ScenarioAPI(ex, st, fr, self)
+        t0 = time.time()
+        self.body(api)
+        results = []
+        for ob in ex.obligations:
+            results.append(discharge(self, ob, budget_ms))
+        if not ex.obligations:
+            raise RuntimeError('scenario %s produced no obligations' % self.name)
+        meta = {'qual': None, 'contract': self.name, 'exec_s': time.time() - t0, 'paths': api.paths,
+                'inlined': sorted(ex.inlined), 'opaque': sorted(ex.opaque_calls),
+                'assumptions': sorted(ex.assumptions), 'functions': sorted(api.called)}
+        return results, meta
+
+
+class ScenarioAPI(object):
+    def __init__(self, ex, st, fr, sc):
+        self.ex, self.st, self.fr, self.sc = ex, st, fr, sc
+        self.paths = 0
+        self.called = set()
+
+    def make(self, name, t, st=None):
+        return t.make(name, st or self.st, self.ex.bv)
+
+    def ns(self, st, old=None, result=None):
+        return NS(self.ex, st, self.fr, old=old, result=result)
+
+    def call(self, qual, args, st, kwargs=None, inline=True):
+        """Execute the real function `qual` (contract if registered and not
+        inline, else its real body) from state st; returns outcomes."""
+        fs = source.load(qual)
+        self.called.add(qual)
+        fn = fs.node
+        if not inline:
+            c = self.ex.reg.contract_for(qual, self.fr)
+            if c is not None:
+                return c.apply(self.ex, args, kwargs or {}, st, self.fr, None)
+        outs = self.ex.inline(fs, args, kwargs or {}, st, self.fr, None)
+        self.paths += len(outs)
+        return outs
+
+    def oblige(self, st, name, goal):
+        self.ex.oblige(st, name, truthy(_lift(goal)), kind='lemma')
+
+    def unreachable(self, st, name):
+        self.ex.oblige(st, name, z3.BoolVal(False), kind='lemma-unreachable')
+
+
+def scenario(name, prop, doc='', opts=None):
+    def deco(fn):
+        s = Scenario(name, prop, fn, doc, opts)
+        REG.add_task(s)
+        return fn
+    return deco
